@@ -46,8 +46,8 @@ The responder task that has completed its session is still alive while it delive
 `SessionEstablishmentSuccess` (`complete_with_status(..).await?` after `session.complete()`); when
 that send fails, `handle` sees `Err` and charges a failure although the session exists. The model
 removes the task at the Pake3 step and remembers the pending delivery in the ghost list `finishing`
-(exchange, end of the retransmission ladder); `Op.dead` on such an exchange within the ladder is the
-failing send. The arrival of the acknowledgement is no event of the model: the environment may
+(exchange, latest instant of the `TxTimeout`: `txGiveUpMs`); `Op.dead` on such an exchange up to that
+instant is the failing send. The arrival of the acknowledgement is no event of the model: the environment may
 fail the final send of a completed handshake (once) at any time within the ladder - a superset of
 what the code can do. Import-free apart from the generated constants.
 -/
@@ -127,6 +127,14 @@ def rxTimeoutMs (m : Mrp) (localActive : Nat) : Nat :=
 /-- upper bound of the time the responder's own answer can stay unacknowledged (its `send_with` loop
 ends, successfully or with `TxTimeout`, within the whole ladder paced by the peer's active interval) -/
 def sendLadderMs (m : Mrp) : Nat := retransTimeoutMs m.active m.active 0 true
+
+/-- upper bound of the time after which a reliable send that is never acknowledged has failed with
+`TxTimeout` (`RetransEntry::pre_send`: `MRP_MAX_TRANSMISSIONS` transmissions, the next attempt fails;
+the wait after each transmission is `delay_ms(counter)` with the counter *after* that transmission,
+i.e. one step further up the back-off ladder than `retransmission_timeout_ms` sums): the ladder
+0..`MRP_MAX_TRANSMISSIONS` with maximum jitter (6926 ms by default; measured on the real code with
+its fixed jitter 100/255: ≈ 6.1 s) -/
+def txGiveUpMs (m : Mrp) : Nat := retransLoop m.active m.active 0 true (Consts.mrpMaxTransmissions + 1) 0 0
 
 /-! ## Handshake data -/
 
@@ -244,7 +252,7 @@ structure St where
   /-- message counters already received per unsecured session: `(exchange, counter)` -/
   seen : List (Nat × Nat) := []
   /-- ghost: responder tasks that have completed their session and are still delivering
-  `SessionEstablishmentSuccess`: `(exchange, end of the retransmission ladder)` -/
+  `SessionEstablishmentSuccess`: `(exchange, latest instant at which that send can fail)` -/
   finishing : List (Nat × Nat) := []
 deriving Repr, DecidableEq, Inhabited
 
@@ -544,7 +552,7 @@ def step (s : St) : Op → St × Out
                                  sameWindowAtCreation := sameWindow }
             -- (after `session.complete()` the task still has to deliver the status report: `finishing`)
             let s := { s with sessions := s.sessions ++ [sess], table := complete s.table x,
-                              finishing := (x, s.now + sendLadderMs t.mrp) :: s.finishing }
+                              finishing := (x, s.now + txGiveUpMs t.mrp) :: s.finishing }
             (removeTask { s with marker := none } x, .statusSuccess)
           else (failTask { s with marker := none } x, .statusInvalidParameter)
   | .other x =>
